@@ -514,3 +514,65 @@ def cbf_dup(ctx):
     ctx.prove("buffered-copy-dropped-on-duplicate", I, z3.And(p0, dupc, reached, z3.Or(still, z3.Not(t0.cancelled))), vars=vars_, replay=replay,
               desc="GBC duplicate while the copy waits for its contention timer => timer cancelled and buffer entry removed")
     ctx.bound("one symbolic GBC frame (58 octets, three area shapes) whose (source, SN) key is in the CBF buffer; duplicate detection answered by the table contract")
+
+
+# ---------------------------------------------------------------------------------------------- D1c the same multi-hop packet twice
+def _twice_vc(ctx, kind):
+    """a multi-hop packet processed twice by the location table (source known or not): the second time it is reported as a duplicate"""
+    from .c08 import KINDS, sym_entry, conc_entry, time_stub, clock_ms, P32
+    from flexstack.utils.time_service import TimeService
+    meth_name, mk = KINDS[kind]
+    I = make("int")
+    mib = MIB()
+    now = time_stub(I)
+    tbl = LocationTable(mib)
+    T = I.lift(tbl)
+    known = z3.Bool("S_known")
+    e = sym_entry(I, "e", mib)
+    hdr = mk(I, "hd")
+    pv = hdr.fields["so_pv"]
+    args = [hdr, G.sym_bytes("pl", 3)]
+    e.fields["position_vector"].fields["gn_addr"] = pv.fields["gn_addr"]
+    T.fields["loc_t"] = SDict([(known, pv.fields["gn_addr"], e, False)])
+    e_init = Obj(e.cls, dict(e.fields))
+    cur = clock_ms(z3.ToInt(now))
+    life = mib.itsGnLifetimeLocTE * 1000
+    fresh = z3.And((cur - pv.fields["tst"].fields["msec"]) % P32 <= life, z3.Or(z3.Not(known), (cur - e.fields["position_vector"].fields["tst"].fields["msec"]) % P32 <= life))
+    n0 = len(I.raises)
+    I.call_function(getattr(LocationTable, meth_name), [T] + args)
+    first_raise = [c for c, k in I.raises[n0:]]
+    first_ok = z3.Not(z3.Or(*first_raise)) if first_raise else TRUE
+    n1 = len(I.raises)
+    I.call_function(getattr(LocationTable, meth_name), [T] + args, {}, first_ok)
+    dup2 = z3.Or(*[c for c, k in I.raises[n1:] if k is DuplicatedPacketException]) if [1 for c, k in I.raises[n1:] if k is DuplicatedPacketException] else FALSE
+    vars_ = G.vars_of(I, e_init, *args)
+    vars_.update({"S_known": known, "now": now})
+
+    def replay(vals):
+        from unittest import mock
+        t = LocationTable(mib)
+        if vals["S_known"]:
+            r = conc_entry(e_init, vals, mib)
+            t.loc_t[r.position_vector.gn_addr] = r
+        cargs = [G.concretize(a, vals) for a in args]
+        outcome = []
+        with mock.patch.object(TimeService, "time", staticmethod(lambda: vals["now"])):
+            for _ in range(2):
+                try:
+                    getattr(t, meth_name)(*cargs)
+                    outcome.append("accepted")
+                except DuplicatedPacketException:
+                    outcome.append("duplicate")
+                except Exception as ex:          # noqa
+                    outcome.append(repr(ex))
+        return outcome == ["accepted", "accepted"], f"{kind} packet with SN {cargs[0].sn} from a source that was {'known' if vals['S_known'] else 'unknown'}, processed twice: {outcome}"
+    ctx.witness(f"{kind}-twice-reach", I, z3.And(fresh, first_ok, dup2), vars=vars_, validate=lambda v: not replay(v)[0])
+    ctx.prove(f"{kind}-second-copy-is-a-duplicate", I, z3.And(fresh, first_ok, z3.Not(dup2)), vars=vars_, replay=replay,
+              desc="the copy of a packet that was accepted is rejected as a duplicate, also when the first copy created the location-table entry of its source")
+    ctx.bound(f"{kind}: arbitrary header / position vector, source known (arbitrary entry, empty duplicate list) or unknown; timestamps within the entry lifetime")
+
+
+@vc("C06", "D1-same-packet-twice")
+def same_packet_twice(ctx):
+    for kind in ("gbc", "tsb", "guc"):
+        _twice_vc(ctx, kind)
